@@ -111,4 +111,44 @@ theorem drop_stops_expiry (now : Int) (c : Coll) :
         simpa using hix.2
       · cases h
 
+/-- what a refused creation leaves: the collection itself, or what the expiry pass of the indexes
+    that exist makes of it; the index tables are untouched either way -/
+theorem refusedCreate_inert (now : Int) (c : Coll) (ix : Index) :
+    (refusedCreate now c ix).indexes = c.indexes ∧
+    (refusedCreate now c ix).ttlIndexes = c.ttlIndexes ∧
+    (refusedCreate now c ix = c ∨ expire now c = .ok (refusedCreate now c ix)) := by
+  unfold refusedCreate
+  split
+  · split
+    · rename_i c1 h
+      have hm := (expire_ok now c c1 h).2
+      exact ⟨hm.1, hm.2.1, .inr h⟩
+    · exact ⟨rfl, rfl, .inl rfl⟩
+  · exact ⟨rfl, rfl, .inl rfl⟩
+
+theorem refused_creation_inert (now : Int) (c : Coll) (ix : Index) (e : Err)
+    (h : (createIndexColl now c ix).2 = .error e) :
+    (createIndexColl now c ix).1.indexes = c.indexes ∧
+    (createIndexColl now c ix).1.ttlIndexes = c.ttlIndexes ∧
+    ((createIndexColl now c ix).1 = c ∨ expire now c = .ok (createIndexColl now c ix).1) := by
+  have hgo : (createIndexColl.go now c ix).2 = .error e →
+      (createIndexColl.go now c ix).1.indexes = c.indexes ∧
+      (createIndexColl.go now c ix).1.ttlIndexes = c.ttlIndexes ∧
+      ((createIndexColl.go now c ix).1 = c ∨
+        expire now c = .ok (createIndexColl.go now c ix).1) := by
+    unfold createIndexColl.go
+    simp only
+    split
+    · intro _; exact refusedCreate_inert now c ix
+    · split <;> (intro h'; cases h')
+  unfold createIndexColl at h ⊢
+  split at h
+  · split at h
+    · rename_i hso
+      simp [hso]
+    · rename_i hso
+      simp only [hso]
+      exact hgo h
+  · exact hgo h
+
 end MongoModel.Proofs.C09
